@@ -570,6 +570,7 @@ class VQueue:
     def __init__(self, world: World, maxsize: int = 0) -> None:
         self.w = world
         self.items: list = []
+        self.maxsize = maxsize if maxsize and maxsize > 0 else 0
         self.name = f"q{world.nobj}"
         world.nobj += 1
         world.objs.append(self)
@@ -578,7 +579,13 @@ class VQueue:
         return ("Q", len(self.items))
 
     def put(self, item, block: bool = True, timeout=None) -> None:
-        self.w.point("put:" + self.name)
+        if self.maxsize:
+            # a bounded queue: put blocks while it is full (queue.Queue semantics)
+            ok = self.w.point("put:" + self.name, lambda: len(self.items) < self.maxsize, None if block and timeout is None else (timeout if block else 0))
+            if not ok:
+                raise VFull()
+        else:
+            self.w.point("put:" + self.name)
         self.items.append(item)
 
     def put_nowait(self, item) -> None:
